@@ -38,7 +38,7 @@ inductive Elem
 inductive CRaise
   | scalar (r : Raise)
   | keyError          -- Dict policy
-  | typeError         -- JoinedString.set(non-iterable): `list(value)` is not guarded
+  | typeError         -- (unused since fix 09fc190: JoinedString.set no longer raises on a non-iterable)
   | unmodelled        -- input shape outside the model (never produced by the generators)
   deriving DecidableEq, Repr, Inhabited
 
@@ -192,14 +192,19 @@ def setElem (E : Env) : Schema → Elem → Input → Except CRaise SetOut
         | _, _, .error r => .error (.scalar r)
     | _ => .error .unmodelled
   | .joined sep sp prune k, _, inp =>
-    let items : Except CRaise (List Native) := match inp with
-      | .list xs => xs.mapM fun x => match x with | .leaf n => .ok n | _ => .error .unmodelled
-      | .leaf (.str s) => .ok ((splitWith E.T sp sep s).map Native.str)   -- `separator_regex.split(value)` / `value.split(self.separator)`
-      | .dict ps => .ok (ps.map (·.1))                               -- `list(value)`
-      | .leaf _ => .error .typeError                                 -- `list(value)` raises TypeError
+    -- `none` = not iterable (`list(value)` raised TypeError)
+    let items : Except CRaise (Option (List Native)) := match inp with
+      | .list xs => match (xs.mapM fun (x : Input) => match x with | .leaf n => Except.ok n | _ => Except.error CRaise.unmodelled) with
+                    | .ok ns => .ok (some ns)
+                    | .error e => .error e
+      | .leaf .none => .ok (some [])                                        -- `elif value is None: values = []`
+      | .leaf (.str s) => .ok (some ((splitWith E.T sp sep s).map Native.str))   -- `separator_regex.split(value)` / `value.split(self.separator)`
+      | .dict ps => .ok (some (ps.map (·.1)))                               -- `list(value)`
+      | .leaf _ => .ok none                                                 -- `except TypeError`
     match items with
     | .error e => .error e
-    | .ok vals =>
+    | .ok none => .ok ⟨.joined [], false, [([], false)]⟩                   -- `del self[:]`, adapted=False
+    | .ok (some vals) =>
       let kept := vals.filter fun v => !(prune && !pyTruthy v)        -- `if prune and not value: continue`
       let outs := kept.map fun v => setScalar E k v
       match outs.findSome? (fun o => match o with | .error e => some e | .ok _ => none) with
